@@ -459,6 +459,47 @@ theorem cache_finished_get_cex : ¬ cache_finished_refuses_full := by
     (by decide) rfl (by decide)
   exact absurd this (by decide)
 
+/-- **The commit window.** `cacheTransaction.Commit` taken apart into its micro-steps in code order — the
+underlying commit, then one eviction per modified key — with ANY interleaving of concurrent plain readers
+(`cache.Get` of any key on the parent cache: hit, or miss → backend read → fill, negative entries included)
+between any two micro-steps, any number of such commits, embedded in any schedule of ordinary events: once each
+commit has returned, the parent cache agrees with the backend on every key it holds, and every open transaction's
+private cache with its transaction (`cache_layer_transparent` at micro-step granularity). What it rests on: a
+reader between the underlying commit and the eviction of `k` can only re-insert the NEW value or a value that the
+pending eviction of `k` still removes (`StaleOnly` in `Obao/Proofs/CacheTxn.lean`). -/
+theorem cache_commit_window_coherent (s0 : Store) (ms : List MEvent) :
+    ParentCoherent ((CSys.init s0).runM ms) ∧ TxnCoherent ((CSys.init s0).runM ms) := by
+  have := inv_runM (CSys.init s0) ms (inv_init s0)
+  exact ⟨this.1, this.2.1⟩
+
+/-- the micro-step commit without readers IS the atomic commit step the operation-granular streams replay -/
+theorem cache_commit_window_refines_atomic (s : CSys) (id : Nat) (w : Win) (h : Win.start s id = some w) :
+    s.step (.commit id) = some (w.finish.sys, w.finish.res) :=
+  window_no_readers s id w h
+
+/-- non-vacuity: a window with readers before the underlying commit, between it and the eviction, and after -/
+example :
+    (fun s : CSys => s.lru.lookup "a" = some (some "02") ∧ sget s.inner.parent "a" = some "02")
+    ((CSys.init [("a", "01")]).runM
+      [.ev (.begin 0 true), .ev (.op 0 (.put "a" "02")),
+       .window 0 [.reader "a", .tick, .reader "a", .reader "b", .tick, .reader "a"]]) := by
+  decide
+
+/-- **What the theorem rests on (model variant, not the code):** with the two halves in the REVERSED order —
+evict first, commit below second — one reader between them re-inserts the pre-commit value and nothing evicts
+it again: the parent cache holds `a = 01` while the backend holds `a = 02`. -/
+theorem cache_commit_reversed_order_cex :
+    ∃ (s : CSys) (s' : CSys), Inv s ∧ commitReversed s 0 ["a"] = some s' ∧ ¬ ParentCoherent s' := by
+  refine ⟨(CSys.init [("a", "01")]).run [.begin 0 true, .op 0 (.put "a" "02")],
+          { inner := { parent := [("a", "02")],
+                       txns := [(0, { root := [("a", "02")], writable := true, written := true, finished := true,
+                                      operations := [{ opType := .put, argKey := "a", argVal := "02", currEntry := some "01" }] })] },
+            lru := [("a", some "01")], ctxns := [(0, { lru := [("a", some "02")], modified := ["a"] })] },
+          inv_run _ _ (inv_init _), by decide, ?_⟩
+  intro h
+  have := h "a" (some "01") (by decide)
+  exact absurd this (by decide)
+
 end Cache
 
 end C08
